@@ -131,10 +131,12 @@ impl World {
         let mg = with_mdk!(&cl.store, m => m.load_mls_group(gid)).ok().flatten()?;
         let ep = mg.epoch().as_u64();
         let auth = mg.epoch_authenticator().as_slice().to_vec();
-        let lost = match self.main_auth.get(&ep) {
-            Some(a) => *a != auth,
-            None => false,
-        };
+        // an evicted member no longer derives the epoch's secrets: "which branch" is only meaningful while active
+        let lost = mg.is_active()
+            && match self.main_auth.get(&ep) {
+                Some(a) => *a != auth,
+                None => false,
+            };
         Some((ep, lost, mg.is_active()))
     }
 
@@ -161,11 +163,11 @@ impl World {
         let msgs = with_mdk!(&cl.store, m => m.get_messages(gid, None)).unwrap_or_default();
         let mut ann: Vec<Value> = vec![];
         for m in &msgs {
+            let items: Vec<String> = m.tags.iter().flat_map(|t| t.as_slice().to_vec()).collect();
             for (fname, f) in &self.files {
                 let x = format!("x {}", hex::encode(f.hash));
                 let fnm = format!("filename {}", f.name);
-                let tags_json = serde_json::to_string(&m.tags).unwrap_or_default();
-                if tags_json.contains(&x) && tags_json.contains(&fnm) {
+                if items.iter().any(|i| *i == x) && items.iter().any(|i| *i == fnm) {
                     ann.push(json!({"f":fname,"epoch":m.epoch.map(|e| e as i64).unwrap_or(-1)}));
                 }
             }
@@ -374,9 +376,34 @@ fn at_head_main(w: &World, c: &str) -> bool {
     matches!(w.mls_view(c), Some((ep, false, true)) if ep == w.head)
 }
 
-fn new_payload(r: &mut StdRng) -> Vec<u8> {
+/// Epoch-causal regime (DESIGN section 3.1): an event is only handed to a client that has reached the epoch it was
+/// created in - an event ahead of its predecessor is recorded Failed for good (known finding of C01/C02, not C17's
+/// business).  Clients without the group may be offered anything.
+fn may_offer_commit(w: &World, c: &str, k: u64) -> bool {
+    match w.mls_view(c) {
+        None => true,
+        Some((ep, false, _)) => ep + 1 >= k,
+        Some((ep, true, _)) => k <= ep,
+    }
+}
+fn may_offer_announce(w: &World, c: &str, f: &str) -> bool {
+    let e = w.files[f].epoch;
+    match w.mls_view(c) {
+        None => true,
+        Some((ep, false, _)) => ep >= e,
+        Some((ep, true, _)) => ep > e,
+    }
+}
+
+/// distinct content ids must give distinct bytes: the id is the first byte, except id 4 = the empty file
+fn new_payload(r: &mut StdRng, cid: u64) -> Vec<u8> {
+    if cid == 4 {
+        return vec![];
+    }
     let n = *[0usize, 1, 17, 1000, 70_000].choose(r).unwrap();
-    g::bytes(r, n)
+    let mut v = vec![cid as u8];
+    v.extend(g::bytes(r, n));
+    v
 }
 
 /// One random history. `contents`: content id per file name (decided up front so that Meta can state it).
@@ -420,20 +447,24 @@ fn random_history(rec: &mut Rec, r: &mut StdRng, backend: &str, steps: usize, co
                 _ => r.gen_range(w.base + 1..=w.head),
             };
             let losing = w.l_events.contains_key(&k) && r.gen_bool(0.35);
-            rec.emit(w.op_deliver_commit(c, k, losing));
+            if may_offer_commit(&w, c, k) {
+                rec.emit(w.op_deliver_commit(c, k, losing));
+            }
         } else if roll < 55 && next_file < files.len() {
             let cands: Vec<&str> = ["a", "b", "c", "d"].iter().copied().filter(|c| matches!(w.mls_view(c), Some((_, false, true)))).collect();
             let Some(s) = cands.choose(r).copied() else { continue };
             let f = files[next_file].clone();
             next_file += 1;
             let cid = contents[&f];
-            let data = payloads.entry(cid).or_insert_with(|| new_payload(r)).clone();
+            let data = payloads.entry(cid).or_insert_with(|| new_payload(r, cid)).clone();
             let name = format!("{}-{}.bin", f, g::ascii(r, 4).replace(['/', '\\', ' '], "_"));
             rec.emit(w.op_announce(s, &f, data, name, cid));
         } else if roll < 80 && !w.files.is_empty() {
             let f = w.files.keys().cloned().collect::<Vec<_>>().choose(r).unwrap().clone();
             let c = *NAMES.choose(r).unwrap();
-            rec.emit(w.op_deliver_announce(c, &f));
+            if may_offer_announce(&w, c, &f) {
+                rec.emit(w.op_deliver_announce(c, &f));
+            }
         } else if !w.files.is_empty() {
             let f = w.files.keys().cloned().collect::<Vec<_>>().choose(r).unwrap().clone();
             let c = *NAMES.choose(r).unwrap();
@@ -453,11 +484,15 @@ fn settle(rec: &mut Rec, w: &mut World, r: &mut StdRng) {
     for c in &order {
         if ann_first {
             for f in &fnames {
-                rec.emit(w.op_deliver_announce(c, f));
+                if may_offer_announce(w, c, f) {
+                    rec.emit(w.op_deliver_announce(c, f));
+                }
             }
         }
         for k in (w.base + 1)..=w.head {
-            rec.emit(w.op_deliver_commit(c, k, false));
+            if may_offer_commit(w, c, k) {
+                rec.emit(w.op_deliver_commit(c, k, false));
+            }
         }
         for f in &fnames {
             rec.emit(w.op_deliver_announce(c, f));
@@ -480,7 +515,7 @@ fn directed_history(rec: &mut Rec, r: &mut StdRng, backend: &str, variant: usize
     let mut payloads: HashMap<u64, Vec<u8>> = HashMap::new();
     let mut announce = |w: &mut World, rec: &mut Rec, r: &mut StdRng, s: &str, f: &str| {
         let cid = contents[f];
-        let data = payloads.entry(cid).or_insert_with(|| new_payload(r)).clone();
+        let data = payloads.entry(cid).or_insert_with(|| new_payload(r, cid)).clone();
         rec.emit(w.op_announce(s, f, data, format!("{f}.bin"), cid));
     };
     // f1 by a at the first epoch; b reads it at once ("before"), c only after all commits ("after")
